@@ -37,7 +37,10 @@ type c18In struct {
 	Dir string   `json:"dir,omitempty"` // ascending | descending | mixed (informational)
 	// a concurrent case: ONE compiled expression evaluated by Conc goroutines at the same time, goroutine g
 	// looping Reps times over the values Seq[i], i = g mod Conc
-	Conc int `json:"goroutines,omitempty"`
+	// the format argument the implementation gets when it is to auto-detect the layout: omit | empty | cache | auto
+	// (the model is given Fmt, the layout the text was written in)
+	Detect string `json:"detect,omitempty"`
+	Conc   int    `json:"goroutines,omitempty"`
 	Reps int `json:"reps,omitempty"`
 }
 
@@ -220,9 +223,17 @@ func c18Expr(in c18In) string {
 	case "attr":
 		return "{timeattr {0} " + quoteArg(in.Sub) + " " + quoteArg(in.Tz) + "}"
 	case "time":
-		return "{time {0} " + quoteArg(in.Fmt) + " " + quoteArg(in.Tz) + "}"
+		if in.Detect == "omit" {
+			return "{time {0}}"
+		}
+		return "{time {0} " + quoteArg(detectArg(in)) + " " + quoteArg(in.Tz) + "}"
 	case "bucket":
-		return "{buckettime {0} " + quoteArg(in.Sub) + " " + quoteArg(in.Fmt) + " " + quoteArg(in.Tz) + "}"
+		if in.Detect == "omit" {
+			return "{buckettime {0} " + quoteArg(in.Sub) + "}"
+		}
+		return "{buckettime {0} " + quoteArg(in.Sub) + " " + quoteArg(detectArg(in)) + " " + quoteArg(in.Tz) + "}"
+	case "attrtime":
+		return "{timeattr {time {0} " + quoteArg(in.Fmt) + " " + quoteArg(in.Tz) + "} " + quoteArg(in.Sub) + " " + quoteArg(in.Tz) + "}"
 	case "duration":
 		return "{duration {0}}"
 	case "durationformat":
@@ -237,6 +248,16 @@ func c18Expr(in c18In) string {
 		return "{durationformat {duration {0}}}"
 	}
 	return ""
+}
+
+func detectArg(in c18In) string {
+	switch in.Detect {
+	case "empty":
+		return ""
+	case "cache", "auto":
+		return in.Detect
+	}
+	return in.Fmt
 }
 
 func ctxOf(arg string) *expressions.KeyBuilderContextArray {
@@ -451,6 +472,26 @@ func c18Term(in c18In, implOut string) (string, c18Out, []string, bool) {
 			o.Names = names
 		}
 		coq = fmt.Sprintf("cft %s %s %s %s %s %s %s %s %s", HS(in.Arg), HS(in.Fmt), namesCoq(names), zc(o.LocOff), zc(o.FinOff), HS(in.Sub), zc(o.Off), HS(o.Abbr), HS(o.Out))
+	case "attrtime":
+		if z == nil {
+			z = zoneByName[""]
+		}
+		tags = append(tags, "fmt="+strings.ToUpper(in.Fmt), "attr="+strings.ToUpper(in.Sub))
+		layout := layoutOf(in.Fmt)
+		names, lo, fo, ok := timeOracle(z, layout, in.Arg)
+		o.LocOff, o.FinOff = lo, fo
+		if !ok {
+			tags = append(tags, "unparseable")
+		} else if v, err := time.ParseInLocation(layout, in.Arg, z.loc); err == nil {
+			o.Abbr, o.Off = offsetAt(z.loc, v.Unix())
+			if strings.EqualFold(in.Sub, "quarter") && int(v.In(z.loc).Month())%3 == 0 {
+				tags = append(tags, "kf:C18-quarter")
+			}
+		}
+		if len(names) > 0 {
+			o.Names = names
+		}
+		coq = fmt.Sprintf("cat %s %s %s %s %s %s %s %s", HS(in.Arg), HS(in.Fmt), namesCoq(names), zc(o.LocOff), zc(o.FinOff), HS(in.Sub), zc(o.Off), HS(o.Out))
 	case "durroundtrip":
 		coq = fmt.Sprintf("cdr %s %s", HS(in.Arg), HS(o.Out))
 	case "durreformat":
@@ -468,6 +509,9 @@ func c18Term(in c18In, implOut string) (string, c18Out, []string, bool) {
 		}
 		if len(names) > 0 {
 			o.Names = names
+		}
+		if in.Detect != "" {
+			tags = append(tags, "auto-detected-layout="+in.Detect)
 		}
 		if in.Kind == "time" {
 			coq = fmt.Sprintf("ct %s %s %s %s %s %s", HS(in.Arg), HS(in.Fmt), namesCoq(names), zc(o.LocOff), zc(o.FinOff), HS(o.Out))
@@ -544,7 +588,7 @@ func oracleDetermined(in c18In, arg string) bool {
 	}
 	layout := layoutOf(in.Fmt)
 	switch in.Kind {
-	case "time", "bucket", "reformat":
+	case "time", "bucket", "reformat", "attrtime":
 		_, _, _, _, det := timeOracleD(z, layout, arg)
 		return det
 	case "roundtrip":
@@ -1290,12 +1334,320 @@ func c18SharedExhaustive(r *Rng) []Case {
 	return cases
 }
 
+// ---------------------------------------------------------------- text-level malformed / edge stream
+// The texts are built from FIELDS, not from instants, so they can name days the calendar does not have,
+// out-of-range clock fields, wall-clock times inside DST gaps and overlaps, wrong names, short and long fields.
+type textFields struct {
+	Y, M, D, h, mi, s string // digits as written
+	mon, wd           int    // month 1..12 for the names (0 = write "Foo"), weekday 0..6 (-1 = write "Xyz")
+	off               int    // numeric offset, seconds
+	abbr              string
+	lowerNames        bool
+}
+
+var monthNames = []string{"January", "February", "March", "April", "May", "June", "July", "August", "September", "October", "November", "December"}
+var dayNames = []string{"Sunday", "Monday", "Tuesday", "Wednesday", "Thursday", "Friday", "Saturday"}
+var layoutTokens = []string{"2006", "January", "Monday", "Jan", "Mon", "MST", "Z07:00", "-0700", ".999999999", "01", "02", "_2", "15", "04", "05", "06"}
+
+func (f textFields) render(layout string) string {
+	var sb strings.Builder
+	name := func(s string, short bool) string {
+		if short && len(s) > 3 {
+			s = s[:3]
+		}
+		if f.lowerNames {
+			s = strings.ToLower(s)
+		}
+		return s
+	}
+	for i := 0; i < len(layout); {
+		tok := ""
+		for _, t := range layoutTokens {
+			if strings.HasPrefix(layout[i:], t) {
+				tok = t
+				break
+			}
+		}
+		switch tok {
+		case "":
+			sb.WriteByte(layout[i])
+			i++
+			continue
+		case "2006":
+			sb.WriteString(f.Y)
+		case "06":
+			if len(f.Y) >= 2 {
+				sb.WriteString(f.Y[len(f.Y)-2:])
+			} else {
+				sb.WriteString(f.Y)
+			}
+		case "01":
+			sb.WriteString(f.M)
+		case "02":
+			sb.WriteString(f.D)
+		case "_2":
+			if len(f.D) == 2 && f.D[0] == '0' {
+				sb.WriteString(" " + f.D[1:])
+			} else {
+				sb.WriteString(f.D)
+			}
+		case "15":
+			sb.WriteString(f.h)
+		case "04":
+			sb.WriteString(f.mi)
+		case "05":
+			sb.WriteString(f.s)
+		case "Jan", "January":
+			if f.mon >= 1 && f.mon <= 12 {
+				sb.WriteString(name(monthNames[f.mon-1], tok == "Jan"))
+			} else {
+				sb.WriteString("Foo")
+			}
+		case "Mon", "Monday":
+			if f.wd >= 0 && f.wd <= 6 {
+				sb.WriteString(name(dayNames[f.wd], tok == "Mon"))
+			} else {
+				sb.WriteString("Xyz")
+			}
+		case "MST":
+			sb.WriteString(f.abbr)
+		case "-0700", "Z07:00":
+			o, sg := f.off, "+"
+			if o < 0 {
+				o, sg = -o, "-"
+			}
+			if tok == "Z07:00" {
+				if f.off == 0 {
+					sb.WriteString("Z")
+				} else {
+					fmt.Fprintf(&sb, "%s%02d:%02d", sg, o/3600, o/60%60)
+				}
+			} else {
+				fmt.Fprintf(&sb, "%s%02d%02d", sg, o/3600, o/60%60)
+			}
+		case ".999999999":
+		}
+		i += len(tok)
+	}
+	return sb.String()
+}
+
+type textEdge struct {
+	name           string
+	y, m, d        int
+	h, mi, s       int
+	alter          func(f *textFields) // after the numeric fields were written
+	needsWeekday   bool                // only meaningful for layouts carrying a weekday name
+	needsMonthName bool
+	numericMonth   bool // only meaningful for layouts with a numeric month
+	fullWidth      bool // keeps the shape dddd-dd-dd dd:dd:dd (usable with auto-detection)
+}
+
+func textEdges() []textEdge {
+	e := []textEdge{}
+	add := func(name string, y, m, d, h, mi, s int) {
+		e = append(e, textEdge{name: name, y: y, m: m, d: d, h: h, mi: mi, s: s, fullWidth: true})
+	}
+	// days the calendar does not have (and their valid neighbours)
+	add("feb29-non-leap-2021", 2021, 2, 29, 10, 0, 0)
+	add("feb29-non-leap-2023", 2023, 2, 29, 0, 0, 0)
+	add("feb29-1900", 1900, 2, 29, 12, 0, 0)
+	add("feb29-2100", 2100, 2, 29, 0, 0, 0)
+	add("feb30-leap-2020", 2020, 2, 30, 10, 0, 0)
+	add("feb30-2021", 2021, 2, 30, 10, 0, 0)
+	add("feb31", 2024, 2, 31, 23, 59, 59)
+	add("apr31", 2021, 4, 31, 12, 30, 0)
+	add("jun31", 2022, 6, 31, 0, 0, 1)
+	add("sep31", 2019, 9, 31, 6, 7, 8)
+	add("nov31", 2021, 11, 31, 12, 0, 0)
+	add("valid-feb29-2020", 2020, 2, 29, 23, 59, 59)
+	add("valid-feb29-2000", 2000, 2, 29, 0, 0, 0)
+	add("valid-feb28-2100", 2100, 2, 28, 23, 59, 59)
+	add("valid-dec31", 2021, 12, 31, 23, 59, 59)
+	add("valid-apr30", 2021, 4, 30, 12, 30, 0)
+	// field ranges
+	add("day00", 2021, 3, 0, 10, 0, 0)
+	add("day32", 2021, 3, 32, 10, 0, 0)
+	add("hour24", 2021, 3, 14, 24, 0, 0)
+	add("minute60", 2021, 3, 14, 12, 60, 0)
+	add("second60", 2021, 3, 14, 12, 30, 60)
+	add("second61", 2016, 12, 31, 23, 59, 61)
+	e = append(e, textEdge{name: "month00", y: 2021, m: 0, d: 14, h: 12, mi: 30, numericMonth: true, fullWidth: true},
+		textEdge{name: "month13", y: 2021, m: 13, d: 14, h: 12, mi: 30, numericMonth: true, fullWidth: true})
+	// names
+	e = append(e,
+		textEdge{name: "wrong-weekday-name", y: 2021, m: 3, d: 14, h: 12, mi: 30, needsWeekday: true, alter: func(f *textFields) { f.wd = (f.wd + 3) % 7 }},
+		textEdge{name: "bad-weekday-name", y: 2021, m: 3, d: 14, h: 12, mi: 30, needsWeekday: true, alter: func(f *textFields) { f.wd = -1 }},
+		textEdge{name: "bad-month-name", y: 2021, m: 3, d: 14, h: 12, mi: 30, needsMonthName: true, alter: func(f *textFields) { f.mon = 0 }},
+		textEdge{name: "lower-case-names", y: 2021, m: 3, d: 14, h: 12, mi: 30, alter: func(f *textFields) { f.lowerNames = true }},
+		textEdge{name: "month-name-of-another-month-with-day31", y: 2021, m: 5, d: 31, h: 1, mi: 2, s: 3, needsMonthName: true, alter: func(f *textFields) { f.mon = 6 }})
+	// truncated and over-long fields
+	e = append(e,
+		textEdge{name: "short-month", y: 2021, m: 3, d: 14, h: 12, mi: 30, numericMonth: true, alter: func(f *textFields) { f.M = "3" }},
+		textEdge{name: "short-day", y: 2021, m: 3, d: 7, h: 12, mi: 30, alter: func(f *textFields) { f.D = "7" }},
+		textEdge{name: "short-hour", y: 2021, m: 3, d: 14, h: 9, mi: 30, alter: func(f *textFields) { f.h = "9" }},
+		textEdge{name: "short-minute", y: 2021, m: 3, d: 14, h: 12, mi: 5, alter: func(f *textFields) { f.mi = "5" }},
+		textEdge{name: "short-second", y: 2021, m: 3, d: 14, h: 12, mi: 30, s: 5, alter: func(f *textFields) { f.s = "5" }},
+		textEdge{name: "short-year", y: 2021, m: 3, d: 14, h: 12, mi: 30, alter: func(f *textFields) { f.Y = "202" }},
+		textEdge{name: "long-year", y: 2021, m: 3, d: 14, h: 12, mi: 30, alter: func(f *textFields) { f.Y = "02021" }},
+		textEdge{name: "long-day", y: 2021, m: 3, d: 14, h: 12, mi: 30, alter: func(f *textFields) { f.D = "014" }},
+		textEdge{name: "long-hour", y: 2021, m: 3, d: 14, h: 10, mi: 30, alter: func(f *textFields) { f.h = "010" }},
+		textEdge{name: "long-second", y: 2021, m: 3, d: 14, h: 12, mi: 30, alter: func(f *textFields) { f.s = "000" }},
+		textEdge{name: "signed-day", y: 2021, m: 3, d: 14, h: 12, mi: 30, alter: func(f *textFields) { f.D = "+4" }})
+	return e
+}
+
+// wall-clock times inside the DST gaps and overlaps of 2021 and 2016 of a zone
+func dstWallEdges(z *zoneInfo) []textEdge {
+	var e []textEdge
+	for _, tr := range z.trans {
+		y := time.Unix(tr, 0).UTC().Year()
+		if y != 2021 && y != 2016 {
+			continue
+		}
+		_, before := offsetAt(z.loc, tr-1)
+		_, after := offsetAt(z.loc, tr)
+		kind, lo, hi := "dst-gap", tr+before, tr+after // wall clocks in [lo, hi) do not exist
+		if after < before {
+			kind, lo, hi = "dst-overlap", tr+after, tr+before // wall clocks in [lo, hi) occur twice
+		}
+		for _, w := range []int64{lo, (lo + hi) / 2, hi - 1, lo - 1, hi} {
+			t := time.Unix(w, 0).UTC()
+			e = append(e, textEdge{name: kind, y: t.Year(), m: int(t.Month()), d: t.Day(), h: t.Hour(), mi: t.Minute(), s: t.Second(), fullWidth: true})
+		}
+	}
+	return e
+}
+
+func (ed textEdge) fields(z *zoneInfo) textFields {
+	f := textFields{Y: fmt.Sprintf("%04d", ed.y), M: fmt.Sprintf("%02d", ed.m), D: fmt.Sprintf("%02d", ed.d),
+		h: fmt.Sprintf("%02d", ed.h), mi: fmt.Sprintf("%02d", ed.mi), s: fmt.Sprintf("%02d", ed.s), mon: ed.m, abbr: "UTC"}
+	// the weekday the (possibly normalised) date would have; the zone's offset / abbreviation around that time
+	t := time.Date(ed.y, time.Month(ed.m), ed.d, ed.h, ed.mi, ed.s, 0, z.loc)
+	f.wd = int(time.Date(ed.y, time.Month(ed.m), ed.d, 12, 0, 0, 0, time.UTC).Weekday())
+	n, o := t.Zone()
+	f.off, f.abbr = o-o%60, n
+	if ed.alter != nil {
+		ed.alter(&f)
+	}
+	return f
+}
+
+// every layout the model covers: the named formats carrying a date, the bucket layouts and two ISO shapes (raw layouts)
+var textLayouts = []string{"ANSIC", "UNIX", "RUBY", "RFC822", "RFC822Z", "RFC1123", "RFC1123Z", "RFC3339", "RFC3339N", "NGINX",
+	"2006-01-02 15:04:05", "2006-01-02T15:04:05", "2006-01-02T15:04:05-07:00", "2006-01-02 15:04", "2006-01-02 15", "2006-01-02", "2006-01"}
+
+func edgeApplies(ed textEdge, layout string) bool {
+	if ed.needsWeekday && !strings.Contains(layout, "Mon") {
+		return false
+	}
+	if ed.needsMonthName && !strings.Contains(layout, "Jan") {
+		return false
+	}
+	if ed.numericMonth && !strings.Contains(layout, "01") {
+		return false
+	}
+	return true
+}
+
+var textAttrs = []string{"weekday", "yearweek", "quarter", "week"}
+
+// k selects the expression: time / buckettime / timeattr(time); detect != "" makes the implementation auto-detect
+// the layout (only offered for the full-width ISO shapes), the model is given the layout itself
+func textCase(ed textEdge, f string, z *zoneInfo, k int, detect string) Case {
+	in := c18In{Arg: ed.fields(z).render(layoutOf(f)), Fmt: f, Tz: z.name, Class: "text:" + ed.name, Detect: detect}
+	switch k % 3 {
+	case 0:
+		in.Kind = "time"
+	case 1:
+		in.Kind, in.Sub = "bucket", seqBuckets[k/3%len(seqBuckets)]
+	default:
+		in.Kind, in.Sub = "attrtime", textAttrs[k/3%len(textAttrs)]
+	}
+	if detect != "" && in.Kind == "attrtime" {
+		in.Kind, in.Sub = "bucket", "days"
+	}
+	c := c18Case(in)
+	c.Nontrivial = true
+	return c
+}
+
+func isoShape(f string) bool {
+	return f == "2006-01-02 15:04:05" || f == "2006-01-02T15:04:05" || f == "2006-01-02T15:04:05-07:00"
+}
+
+// every layout x every edge that applies, the expression / zone / bucket rotating; the DST walls per DST zone x the
+// zone-less layouts; the ISO shapes also through auto-detection ("" = cache, "auto", and the format argument left out)
+func c18TextExhaustive() []Case {
+	loadZones()
+	var cases []Case
+	k := 0
+	edges := textEdges()
+	for _, f := range textLayouts {
+		for _, ed := range edges {
+			if !edgeApplies(ed, layoutOf(f)) {
+				continue
+			}
+			cases = append(cases, textCase(ed, f, zones[k%len(zones)], k, ""))
+			if isoShape(f) && ed.fullWidth {
+				cases = append(cases, textCase(ed, f, zones[(k+5)%len(zones)], k+1, []string{"empty", "auto", "cache"}[k%3]))
+				if k%4 == 0 {
+					cases = append(cases, textCase(ed, f, zoneByName[""], k+1, "omit"))
+				}
+			}
+			k++
+		}
+	}
+	for _, z := range zones {
+		for _, ed := range dstWallEdges(z) {
+			for _, f := range []string{"ANSIC", "2006-01-02 15:04:05", "2006-01-02T15:04:05", "2006-01-02 15:04"} {
+				cases = append(cases, textCase(ed, f, z, k, ""))
+				if isoShape(f) && k%2 == 0 {
+					cases = append(cases, textCase(ed, f, z, k+1, []string{"empty", "auto"}[k/2%2]))
+				}
+				k++
+			}
+		}
+	}
+	return cases
+}
+
+func genTextCase(r *Rng) Case {
+	loadZones()
+	z := Pick(r, zones)
+	edges := textEdges()
+	if len(z.trans) > 0 && r.Chance(1, 3) {
+		if w := dstWallEdges(z); len(w) > 0 {
+			edges = w
+		}
+	}
+	for {
+		ed, f := Pick(r, edges), Pick(r, textLayouts)
+		if !edgeApplies(ed, layoutOf(f)) {
+			continue
+		}
+		// any year / any month for the calendar edges
+		if strings.HasPrefix(ed.name, "feb29-non-leap") {
+			ed.y = 1970 + r.Intn(131)
+			if ed.y%4 == 0 {
+				ed.y++
+			}
+		}
+		detect := ""
+		if isoShape(f) && ed.fullWidth && r.Chance(1, 3) {
+			detect = Pick(r, []string{"empty", "auto", "cache"})
+		}
+		return textCase(ed, f, z, r.Intn(36), detect)
+	}
+}
+
 func c18Gen(r *Rng, n int, tier string) []Case {
 	loadZones()
 	cases := c18Exhaustive(tier)
 	cases = append(cases, c18SeqExhaustive(tier)...)
 	cases = append(cases, c18SharedExhaustive(r.Fork())...)
 	cases = append(cases, c18OffsetExhaustive()...)
+	cases = append(cases, c18TextExhaustive()...)
 	base := len(cases)
 	for len(cases) < base+n {
 		var in c18In
@@ -1311,6 +1663,9 @@ func c18Gen(r *Rng, n int, tier string) []Case {
 			continue
 		case x < 33:
 			cases = append(cases, genOffsetCase(r))
+			continue
+		case x < 45:
+			cases = append(cases, genTextCase(r))
 			continue
 		}
 		switch x := r.Intn(100); {
@@ -1342,6 +1697,7 @@ func main() {
 			"time with explicit format (strings printed by Go for the instant in the zone, 1/4 mutated: digit, truncation, trailing text, byte, space, fractional second, case, range), buckettime (all bucket names and abbreviations), duration (printed by durationformat, component strings, limits, malformed), durationformat (boundaries, overflow, bad integers). " +
 			"sequences (state inside ONE compiled expression reused across instants): {timeformat {0} F Z}, {timeattr {0} A Z}, {buckettime {0} B F Z}, {time {0} F Z} compiled once and evaluated second by second over t-3..t+3 (sometimes up to +-8) around a breakpoint, ascending and descending — exhaustively for every 2020/2021 (+ first/last) DST change of every zone and local new-year / quarter / month starts, and 8% of the random cases; every output of the sequence is compared with the model; a sequence is one case. " +
 			"the value of a compiled expression on a context must depend on that context alone: (a) mixed sequences — each of the ten forms (timeformat, timeattr, time, buckettime, duration, durationformat, {time {timeformat ..}}, {timeformat {time ..}}, {duration {durationformat ..}}, {durationformat {duration ..}}) compiled once and evaluated on the empty context first, then values with repeats, an unparseable value and the empty context again, every step compared with the model value of that context alone; (b) concurrent cases — one compiled expression shared by 4..8 goroutines released by a start barrier, each evaluating its own 10 values 300 times (3000 evaluations per goroutine), every result compared with the value of its context on a freshly compiled expression evaluated alone; the first differing result (if any) is what the model is compared with; every form every run (21 fixed concurrent cases, 20 mixed sequences) plus 4% / 0.5% of the random cases. " +
+			"text-level malformed / edge stream (texts built from fields, not from instants) through time, buckettime and {timeattr {time ..}} for every modelled layout (the ten named date formats, the bucket layouts, three ISO shapes as raw layouts): day past the end of the month (Feb 29 in non-leap years incl. 1900/2100, Feb 30/31, Apr/Jun/Sep/Nov 31) with valid neighbours, month 00/13, day 00/32, hour 24, minute/second 60/61, wrong / unknown weekday and month names, lower-case names, short and over-long fields, and the wall-clock times at / inside / around every 2021 and 2016 DST gap and overlap of every DST zone in the zone-less layouts (expected value: the model, with Go's time.Date supplying the offset the zone rules give to a skipped or repeated wall clock — zone transitions are not modelled); the full-width ISO shapes also with the layout auto-detected by the implementation (format \"\", cache, auto, or left out) and the model given the layout (equality only); every layout x edge every run + 6% of the random cases. " +
 			"distinct = distinct (kind, argument or sequence, format, attribute/bucket, zone); non-trivial = the instant lies within 2 days / 1 week of a calendar or DST breakpoint, or the input is mutated / malformed / a limit.",
 		Gen: c18Gen,
 		Replay: func(d json.RawMessage) (Case, error) {
